@@ -49,6 +49,8 @@ def check(ctx):
     ctx.rule("R19.4", "validation checks the options, it does not change them (only a solver name is replaced by its enum member)", 1)
     ctx.rule("R19.1", "every validation site precedes the first statement that can create a file or directory", 4)
     ctx.rule("R19.2", "after that point only state-dependent failures (RuntimeError, I/O) can be raised, up to a short allow-list", 1)
+    ctx.rule("R19.7", "options the run divides by, or whose sign decides whether the clock advances, are range-checked by validate() "
+                      "(or guarded where they are used): a zero / negative value is rejected before the output file exists", 3)
     ctx.rule("R19.3", "each class of ill-posed input has a guard whose predicate depends on that input and accepts/rejects the right side of the boundary", 14)
     cg = CallGraph(repo)
     f_solve_api = repo.func("tdgl.solver.solve", "solve")
@@ -151,6 +153,7 @@ def check(ctx):
 
     guards(ctx, f_init, f_solve)
     option_ranges(ctx)
+    loop_needs(ctx, cg, sorted(reach | {f_solve.fq}))
     from ..report import Shared
     from . import c18
     from .c13 import scales_not_memoised
@@ -428,6 +431,99 @@ def option_ranges(ctx):
     ok = outcomes == {(1e-3, 1e-1): "return", (1e-1, 1e-1): "return", (0.2, 1e-1): "raise"}
     ctx.ob("R19.3", "dt_init <= dt_max enforced (equality accepted)", ok, detail={f"dt_init={k[0]} dt_max={k[1]}": v for k, v in outcomes.items()}, where=fv.fq,
            construct="dt_init <= dt_max", message=f"dt_init / dt_max samples: {outcomes}", consequence="an initial step above the cap is accepted")
+
+
+def _option_field(e: ast.expr, fields) -> Optional[str]:
+    """`options.F`, `self.options.F`, `solver_options.F`, `self.solver.options.F` ... -> F (a declared SolverOptions field)."""
+    if isinstance(e, ast.Attribute) and e.attr in fields:
+        base = norm(e.value)
+        if base.split(".")[-1] in ("options", "solver_options", "opts"):
+            return e.attr
+    return None
+
+
+def loop_needs(ctx, cg, fqs):
+    """R19.7.  (a) Every `%`, `//`, `/` in the functions that run after the output file exists whose divisor is a SolverOptions field
+    (read directly or through a single local alias): the use is dominated by a test `0 < field`, or validate() rejects field = 0.
+    (b) The clock: the loop ends when the accumulated time reaches the requested time, and with adaptivity off every step equals
+    dt_init (R12.2), so validate() must reject dt_init <= 0 (0: the clock never moves and frames are written for ever; negative:
+    time runs backwards)."""
+    from ..dataflow import conditions_at, expand
+    repo = ctx.repo
+    C = repo.cls(OPTIONS, "SolverOptions")
+    fv = repo.func(OPTIONS, "SolverOptions.validate")
+    fields = {st.target.id for st in C.node.body if isinstance(st, ast.AnnAssign) and isinstance(st.target, ast.Name)}
+    def guards_here(f, n):
+        """Tests that hold where n is evaluated: the enclosing if-conditions and the earlier operands of an enclosing `and`
+        (each expanded through single definitions)."""
+        out = []
+        try:
+            out = [norm(c) for c in conditions_at(f.node, n)]
+        except Exception:
+            pass
+        pm = parent_map(f.node)
+        cur = n
+        while id(cur) in pm and not isinstance(cur, ast.stmt):
+            par = pm[id(cur)][0]
+            if isinstance(par, ast.BoolOp) and isinstance(par.op, ast.And):
+                for v in par.values:
+                    if v is cur:
+                        break
+                    try:
+                        out.append(norm(expand(f.node, v)))
+                    except Exception:
+                        out.append(norm(v))
+            cur = par
+        return out
+
+    def positive(fld, conds):
+        return any(fld in c and ("0 <" in c or "> 0" in c or "1 <=" in c or ">= 1" in c) for c in conds)
+
+    sites = []
+    for fq in fqs:
+        f = cg.funcs[fq]
+        if not f.module.name.startswith("tdgl.solver"):
+            continue
+        for n in ast.walk(f.node):
+            if isinstance(n, ast.BinOp) and isinstance(n.op, (ast.Mod, ast.FloorDiv, ast.Div)):
+                right = n.right
+                fld = _option_field(right, fields)
+                if fld is None and isinstance(right, ast.Name):
+                    try:
+                        fld = _option_field(expand(f.node, right), fields)
+                    except Exception:
+                        fld = None
+                if fld is None or isinstance(n.left, ast.Constant) and isinstance(n.left.value, str):
+                    continue
+                sites.append((f, n, fld))
+    if len(sites) < 2:
+        raise AnalysisError(f"R19.7: only {len(sites)} divisions by an option field found on the run path (the save interval is one today)")
+    for f, n, fld in sites:
+        conds = guards_here(f, n)
+        local = positive(fld, conds)
+        res0 = follow_validate(repo, {fld: 0})[0]
+        ok = local or res0 == "raise"
+        ctx.ob("R19.7", f"divisor {fld} in `{norm(n)[:60]}` cannot be zero", ok,
+               detail={"guards_at_use": conds, "validate(field=0)": res0}, where=f.fq, loc=loc(f, n), construct=f"division by options.{fld}",
+               message=f"`{norm(n)[:80]}` divides by options.{fld}; nothing rejects {fld} = 0 before the run (validate() {res0}s, guards at the use: {conds})",
+               consequence=f"{fld} = 0 is accepted, the output file is created, and the run dies with ZeroDivisionError in its first step - an ill-posed "
+                           "option set is rejected only after output exists, and the file is left behind")
+    for fld in sorted({s_[2] for s_ in sites}):
+        if any(fld == s_[2] and isinstance(s_[1].op, ast.Mod) for s_ in sites):
+            neg = follow_validate(repo, {fld: -3})[0]
+            pos = follow_validate(repo, {fld: 1})[0]
+            local_all = all(positive(fld, guards_here(s_[0], s_[1])) for s_ in sites if s_[2] == fld)
+            ctx.ob("R19.7", f"interval {fld}: 1 accepted, negative rejected (or guarded at every use)", pos == "return" and (neg == "raise" or local_all),
+                   detail={"validate(1)": pos, "validate(-3)": neg, "guarded_at_every_use": local_all}, where=fv.fq, loc=loc(fv, fv.node),
+                   construct=f"range of {fld}", message=f"validate() with {fld} = 1: {pos}; with {fld} = -3: {neg}",
+                   consequence=f"a negative {fld} reaches the run loop (as a modulus; save_every also sizes the record buffers) and fails there, after the output file exists")
+    out = {v: follow_validate(repo, {"dt_init": v})[0] for v in (0, 0.0, -1e-3, 1e-9, 1e-6)}
+    ok = out[0] == out[0.0] == out[-1e-3] == "raise" and out[1e-9] == out[1e-6] == "return"
+    ctx.ob("R19.7", "dt_init: zero and negative rejected, small positive accepted", ok, detail={repr(k): v for k, v in out.items()}, where=fv.fq,
+           loc=loc(fv, fv.node), construct="dt_init > 0",
+           message=f"validate() on dt_init samples: {out}",
+           consequence="dt_init = 0 (or < 0) is accepted: the clock never reaches solve_time, the run does not end and the output file grows "
+                       "without bound (15 s of a 4x4 device: 40 MB)")
 
 
 def terminal_current_validator(ctx, fv):
